@@ -58,7 +58,7 @@ TABLE = {
             "in non-test, non-configuration code must receive exactly TICK_TIME. This decides provenance for all programs "
             "and schedules - a type checker cannot (int is assignable to float) and tests only see a few tags.",
             "Seed assumption: Engine.tick is called with the engine clock time of the tick. Wall-clock stamping sites "
-            "that need an API change to repair are open known findings. User UOD code is out of scope. A time argument carried in a generator local/parameter across a yield is stale and is reported."),
+            "that need an API change to repair are open known findings. User UOD code is out of scope. A time argument carried in a generator local/parameter across a yield is stale and is reported. (R16d, four known findings) every write of a reported tag field is accompanied by a stamp."),
     "C19": ("check-then-use contradiction rule + must-report rule on CFGs of all analyzer visitors",
             "For every branch on <collection>.has(name) the missing edge is followed on the CFG: it may never reach "
             "get()/[] of the same name (which raises) and must pass an ERROR AnalyzerItem before the exit; lookups need a "
@@ -151,7 +151,7 @@ TABLE = {
             "clear_run_id -> _stop_interpreter in dominance order (Restart then, after a yield, set_run_id -> enable -> "
             "emit_on_start); the cancel chain down to _finalize_command is checked link by link; every Tag subclass "
             "overriding on_stop must reach super().on_stop() on all paths (that is what ends simulations).",
-            "Decides the clean-up structure; completeness of the run log at every stop point and UOD callback behaviour are not decided. Also decided (R10d): in _execute_uod_command every path from the acquisition of the instance to a raising exit finalizes it, and _finalize_command marks the request done on every path - Stop can only cancel what is still an executing request. (R10e): cancel_all_commands is called in the generator segment that ends the run, not only before a wait."),
+            "Decides the clean-up structure; completeness of the run log at every stop point and UOD callback behaviour are not decided. Also decided (R10d): in _execute_uod_command every path from the acquisition of the instance to a raising exit finalizes it, and _finalize_command marks the request done on every path - Stop can only cancel what is still an executing request. (R10e): cancel_all_commands is called in the generator segment that ends the run, not only before a wait. (R10f) a command's cancellation is recorded whatever its node says; (R10g) Stop finalizes instances without a request; (R10h) the concluded-invocation gate finalizes the command its request started."),
     "C11": ("lifecycle typestate rules on the CFG of CommandManager._execute_uod_command",
             "Both cancel loops must dominate instance creation and every execute(); creation only without an existing "
             "instance; initialize only when not initialised and before execute; finalize only through guarded sites; from "
@@ -163,7 +163,7 @@ TABLE = {
             "disable that check; flags are set only when offered; cancel_instruction and force_instruction must both "
             "reject unknown ids and track known ones; every waiting loop of a cancellable/forcible instruction must read "
             "the flag (directly or via its helper); Pause/Hold.cancel must run the inverse command.",
-            "Decides the reject-or-apply structure; tick-exact timing of the effect is not decided. Also decided (R12d): an accepted cancel of a command instance finalizes it before returning. (R12e): on the request-state model shared with C04 a cancelled Watch/Alarm never invokes its body and a forced one never returns to the same yield unchanged. (R12f) cancel_instruction/force_instruction refuse a concluded invocation before any change; (R12g) _execute_command retires a request whose invocation has concluded instead of executing it."),
+            "Decides the reject-or-apply structure; tick-exact timing of the effect is not decided. Also decided (R12d): an accepted cancel of a command instance finalizes it before returning. (R12e): on the request-state model shared with C04 a cancelled Watch/Alarm never invokes its body and a forced one never returns to the same yield unchanged. (R12f) cancel_instruction/force_instruction refuse a concluded invocation before any change; (R12g) _execute_command retires a request whose invocation has concluded instead of executing it. (R12h) requests act on the invocation they name; (R12i) one instance id per Watch/Alarm invocation; (R12j) an aborted waiting Watch/Alarm is concluded."),
     "C13": ("error-discipline rules on Engine.tick (handler completeness, must-call), failure-marking rules on the interpreter "
             "and command manager, and a class-hierarchy-resolved exception-escape audit of the unprotected part of the tick",
             "The interpreter tick and the command tick must sit in try bodies with a catch-all whose every handler reaches "
@@ -176,7 +176,7 @@ TABLE = {
             "hold for every method text and schedule because they are facts about all paths of the tick.",
             "Decides the error discipline, not the absence of exceptions from partial builtins on runtime values, user UOD "
             "callbacks, or RecursionError on deep programs; hardware-layer implementations are exempt by the property's "
-            "assumption (hardware answers in its declared domain). The escape audit also counts next()/max()/min() without a fallback as raise sites (StopIteration/ValueError)."),
+            "assumption (hardware answers in its declared domain). The escape audit also counts next()/max()/min() without a fallback as raise sites (StopIteration/ValueError). (R13f) bookkeeping reads real values; (R13g, known finding) a timed Pause resumes an errored run; (R13h, known finding) mark_failed early exit; (R13i) a failed start leaves no instance."),
     "C15": ("ownership/append-only rules for record states and their clock, must-pass-through for the sort, id ownership dataflow, "
             "and a finite path enumeration of the run-log state loop per record-state enum member",
             "Record states are appended only by RuntimeRecord._add_state, called only from Tracking with Tracking's tick "
@@ -226,12 +226,12 @@ TABLE = {
             "necessary conditions for 'continues as if loaded from the start' that hold for every edit history.",
             "Equality of an edited run with a fresh run is out of static reach. R01b and R01c are violated today (the hot-swap "
             "visitor never finds the root; merge installs a state-less program): open known findings, not repairable without "
-            "breaking baseline tests that depend on the re-execution. Also decided (R01e): the started/executed ids that feed the lock set are collected over a complete traversal of the program (opstatic/traversal.py: no class test decides membership, with the call's constant arguments bound), and extract/apply_tree_state visit every node."),
+            "breaking baseline tests that depend on the re-execution. Also decided (R01e): the started/executed ids that feed the lock set are collected over a complete traversal of the program (opstatic/traversal.py: no class test decides membership, with the call's constant arguments bound), and extract/apply_tree_state visit every node. (R01f) a removed started/executed line is rejected; (R01g) the started-macro guard compares the instruction name."),
     "C02": ("dispatch-table exhaustiveness + dominance checks in the child iteration and the generic visit",
             "Every node class the parser can emit has a visit_<Class> on PInterpreter's MRO, every interpreter command and "
             "engine command name has a handler/class; child_index is incremented once, after the child's generator; completed "
             "nodes are never dispatched; started is set only after the threshold wait; trailing blank/comment lines are never passed.",
-            "Exactly-once and ordering for arbitrary nestings and timings are runtime properties and not decided. The blank/comment rule follows `yield from self.<helper>(node)` delegation and has an instance floor (it once passed vacuously on a refactoring). Also decided (R02c): every normal end of a macro invocation increments the finished counter that guards the body reset, and the reset is recursive. (R02c) the finished counter is incremented in a finally around the body visit (abandoned invocations count); (R02d) every interpreter command completes on every normal path."),
+            "Exactly-once and ordering for arbitrary nestings and timings are runtime properties and not decided. The blank/comment rule follows `yield from self.<helper>(node)` delegation and has an instance floor (it once passed vacuously on a refactoring). Also decided (R02c): every normal end of a macro invocation increments the finished counter that guards the body reset, and the reset is recursive. (R02c) the finished counter is incremented in a finally around the body visit (abandoned invocations count); (R02d) every interpreter command completes on every normal path. (R02e) only the Call macro node that started an invocation continues it (owner attribute, waiting loop, carried state)."),
     "C03": ("constant-table agreement (duration units/multipliers) and data-flow orientation of the threshold comparison",
             "The unit list of the duration regexes, the units and folded multipliers of get_duration_end and the groups used by "
             "Wait/Pause/Hold must agree; the threshold comparison must be '<'(scope clock, node.threshold) with the clock "
@@ -248,13 +248,13 @@ TABLE = {
             "End block and End blocks must perform the same per-block effect set and write the Block tag; the lock-acquired "
             "branch must announce the block before the body; every normal exit releases the lock; completion after the body is "
             "reachable only once block_ended; the lock is taken only when all locked blocks are ancestors.",
-            "The single-chain invariant over all reachable interpreter states and which block `End block` picks are data-dependent and not decided. R05c is role-based and also requires the set of locked blocks to be read from the lock flags at decision time; a stored snapshot must be refreshed by the statement that takes the lock. (R05d) End block chooses among locked blocks that have not been ended; (R05e) the Block tag is cleared when Stop/Restart replace the interpreter."),
+            "The single-chain invariant over all reachable interpreter states and which block `End block` picks are data-dependent and not decided. R05c is role-based and also requires the set of locked blocks to be read from the lock flags at decision time; a stored snapshot must be refreshed by the statement that takes the lock. (R05d) End block chooses among locked blocks that have not been ended; (R05e) the Block tag is cleared when Stop/Restart replace the interpreter. (R05f) locks of blocks below an aborted interrupt are released; (R05g) the un-weakened ended-block test guards every child visit, in handlers too."),
     "C14": ("lookup-domain agreement rule for interrupts + effect check of inject_node + guard check of the interpreter tick",
             "Every node handed to _register_interrupt must be findable where the live-edit merge looks interrupts up (the "
             "program tree) or the merge must consult the injected-node registry; inject_node may not write method progress; "
             "injected interrupts advance only through PInterpreter.tick under the started/not-paused/holding/stopping guard.",
             "Exactly-once execution of arbitrary snippets is not decided. R14a is violated today (injected nodes are not in the "
-            "tree and are dropped by a merge): open known finding. (R14d) one loop-free call site per link of the resolved inject call chain; (R14e) the id generator of the inject parser is never re-created or reset."),
+            "tree and are dropped by a merge): open known finding. (R14d) one loop-free call site per link of the resolved inject call chain; (R14e) the id generator of the inject parser is never re-created or reset. (R14f, known finding) executing requests across the interpreter swap; (R14g) an injected Call macro makes its own invocation; (R14h, known finding) injected blocks are outside the lock's lookup domain."),
     "C41": ("dominance of the invocation by the undefined/recursion tests, ownership of the macro table, validation raises for started macros",
             "The macro body invocation must be dominated by the undefined-macro raise and by the recursion test on "
             "macro_calling_macro's result, lie on no cycle, and be followed by the completion counter; ProgramNode.macros is "
